@@ -14,6 +14,7 @@ ERR = {1: "IndexError", 2: "ValueError", 3: "TypeError", 9: "Unsupported"}
 UNKNOWN_NAME = 4094
 BAD = 4095          # sentinel for 'not a small natural number' (the model's nat is unary: keep numbers small)
 NAT_MAX = 4000
+OBS_LIMIT = 8000
 
 # builder codes (Model/Gen.v builder_of_code)
 CLIQUE, CYCLE, DIAMOND, BARE, PATH2, STAR, NONE, PATH2L = 0, 1, 2, 3, 4, 5, 6, 7
@@ -196,6 +197,8 @@ class Runner:
 
             def cb(vs):
                 entry = [j, [enc_raw(v) for v in vs], None]
+                if type(vs) is not list or any(type(v) is not int for v in vs):
+                    self.bad_arg_types = "%s of %s" % (type(vs).__name__, sorted({type(v).__name__ for v in vs}))
                 self.log.append(entry)
                 r = fn(vs)
                 entry[2] = shape_of(r)
@@ -215,6 +218,8 @@ class Runner:
             names = [name_str(nms[0]) if nms else "n0" for nms in case["names"]]
         self.names = names
         self.names_before = list(names)
+        self.bad_arg_types = None
+        self.decoys = []
         self.params_snapshot = None
 
     def snapshot(self):
@@ -239,6 +244,19 @@ class Runner:
         except Exception:  # noqa: BLE001
             pass
 
+    def run_decoy(self):
+        """a SECOND algorithm object (other parameters) is built and run, and stays alive, before the first one's
+        result is read: class-level / module-level state shared between instances shows up here"""
+        case = self.case
+        d = {"tag": case["tag"], "via": "direct", "sizes": [1, 2, 1][:max(1, len(case["sizes"]))] + [1] * 3,
+             "mis": [[0]], "codes": [CLIQUE]}
+        names = ["decoy"] if case["tag"] != MOTIFS else [lambda: ("decoy",)]
+        orc = FreeOracle(12345)
+        with free_scripted(orc):
+            alg = construct(d, [py_builder(STAR)], names)
+            out = alg.random_clustered_graph([(2,), (1,), (1,)])
+        self.decoys.append((alg, out))
+
     def step(self, jds_rows, script, patched=False, rows="tuple"):
         from gcmpy.names.network_names import NetworkNames
         case = self.case
@@ -262,12 +280,15 @@ class Runner:
             with strict_scripted(script):
                 out = go()
         self.last_out = out
-        log = self.log
+        log = list(self.log)
+        if case.get("decoy"):
+            self.run_decoy()
         obs = {
             "calls": [[e[0], e[1]] for e in log],
             "results": [[e[0], e[2]] for e in log],
             "shuffles": [[list(a), list(p)] for (_, a, p) in script.log],
             "script_left": len(script.answers) - script.pos,
+            "arg_types": self.bad_arg_types,
             "input_jds_intact": (list(jds) == jds_before and [type(r) for r in jds] == types_before
                                  and self.snapshot() == self.params_snapshot),
         }
@@ -282,9 +303,12 @@ class Runner:
                            enc_raw(d.get(NetworkNames.MOTIF_IDS, -1))])
             obs["net_edges"] = sorted(es)
         else:
-            obs["edges"] = [enc_raw(e) for e in out.edge_list]
-            obs["names"] = [name_code(s) for s in out.topologies]
-            obs["ids"] = [enc_raw(i) for i in out.motif_id]
+            # columns longer than any generated case can produce are cut (a runaway implementation must not
+            # exhaust memory; the cut columns still differ from the model's and fail the checker)
+            lim = OBS_LIMIT if max(len(out.edge_list), len(out.topologies), len(out.motif_id)) <= OBS_LIMIT else 60
+            obs["edges"] = [enc_raw(e) for e in out.edge_list[:lim]]
+            obs["names"] = [name_code(s) for s in out.topologies[:lim]]
+            obs["ids"] = [enc_raw(i) for i in out.motif_id[:lim]]
             obs["jds_out"] = enc_raw(list(out.joint_degrees)) if isinstance(out.joint_degrees, (list, tuple)) else -1
         return obs
 
@@ -440,6 +464,8 @@ def compare_run(case, impl, model):
         return "build-callback calls differ: impl %r model %r" % (impl["calls"], model["calls"])
     if impl["jds_out"] != model["jds_out"]:
         return "joint_degrees: impl %r model %r" % (impl["jds_out"], model["jds_out"])
+    if impl.get("arg_types"):
+        return "a build callback received %s instead of a list of Python ints" % impl["arg_types"]
     if not impl["input_jds_intact"]:
         return "the caller's jds / the algorithm's configuration was mutated by the call"
     if case["tag"] == NETWORK:
@@ -625,7 +651,39 @@ def history_case(rng, tag):
         steps.append({"jds": jds, "pis": pis})
     c["steps"] = steps
     c["rows"] = rng.choice(["tuple", "list"])
+    c["decoy"] = rng.random() < 0.5
     return c
+
+
+def big_case(rng, tag):
+    """sizes, degrees and counts beyond the usual range (motif sizes 9..17, degrees up to 20, N up to 60)"""
+    T = rng.randint(1, 2)
+    N = rng.randint(9, 60)
+    sizes = [rng.choice([9, 10, 16, 17, 2, 3]) for _ in range(T)]
+    if all(x < 9 for x in sizes):
+        sizes[0] = rng.choice([9, 16, 17])
+    mis = [[k] for k in range(T)]
+    if tag == MOTIFS and T == 2 and rng.random() < 0.5:
+        mis = [[1, 0]]
+    jds = [[0] * T for _ in range(N)]
+    for idxs in mis:
+        count = rng.randint(1, 9)
+        for i in idxs:
+            for _ in range(count * sizes[i]):
+                v = rng.randrange(N) if rng.random() < 0.7 else rng.randrange(min(N, 3))   # a few high-degree vertices
+                jds[v][i] += 1
+    codes = []
+    for idxs in (mis if tag == MOTIFS else [[k] for k in range(T)]):
+        s_ = sum(sizes[i] for i in idxs)
+        codes.append(rng.choice([CLIQUE, CYCLE, STAR]) if s_ <= 17 else rng.choice([CYCLE, STAR]))
+    names = names_for(tag, codes, sizes, mis if tag == MOTIFS else [[k] for k in range(T)], rng)
+    pis = []
+    for k in range(T):
+        p = list(range(sum(r[k] for r in jds)))
+        rng.shuffle(p)
+        pis.append(p)
+    return {"tag": tag, "via": rng.choice(VIAS), "jds": jds, "sizes": sizes, "codes": codes, "names": names,
+            "mis": mis if tag == MOTIFS else [], "pis": pis, "decoy": rng.random() < 0.3}
 
 
 # ------------------------------------------------------------------ generators
@@ -709,7 +767,14 @@ def random_valid_case(rng, tag, maxN=12, maxT=4, maxsize=5, maxdeg=3):
             codes.append(pick_code(rng, tag, sum(sizes[i] for i in idxs)))
     else:
         codes = [pick_code(rng, tag, sizes[k]) for k in range(T)]
-    names = names_for(tag, codes, sizes, mis, rng)
+    names = names_for(tag, codes, sizes, mis, rng, base=rng.choice([10, 300, 7]))
+    if rng.random() < 0.5:
+        # names are not in alphabetical / index order: permute the codes over the topologies, keeping row counts
+        flat = sorted({c for nm in names for c in nm})
+        perm = list(flat)
+        rng.shuffle(perm)
+        ren = dict(zip(flat, perm))
+        names = [[ren[c] for c in nm] for nm in names]
     if tag != MOTIFS and rng.random() < 0.15 and T >= 2:
         names[1] = list(names[0])     # two topologies sharing one name
     sums = col_sums(jds)
